@@ -163,6 +163,27 @@ def check(ctx):
     import importlib as _il
     _il.import_module("props.C04").check_poll_protocol(util.PrefixedCtx(ctx, "R08.8"))
     ctx.floor("R08.8", 8)
+    # 'one owner per pool slot' across the OgreUnique -> OgreArc conversion (shared with C14 R14.5 / R14.8): a conversion that lets the unique handle's Drop run frees
+    # the slot the new shared handle still owns -- the slot is handed out twice (two accepted events in one slot) and freed twice
+    __import__("importlib").import_module("props.C14").check_unique_to_shared(ctx, "R08.9")
+    # ------------------------------------------------------------------ R08.7 (containers) the zero-copy containers answer the ring's own publication answer
+    # (`publish_leaked_id` / `publish_leaked_ref` return what `queue.publish_movable(id)` answered -- `Some(len)` exactly when the id went in.  An answer recomputed afterwards
+    #  from a fresh length query is `None` whenever a consumer already took the element: try_send_reserved then says "retry" for a slot that WAS published, and the retry
+    #  publishes -- and later frees -- it a second time)
+    n87 = 0
+    for adt in (R.AZC, R.FZC):
+        for fn in ("publish_leaked_id", "publish_leaked_ref"):
+            for k87 in [x for x in fx.by_key if x.startswith(adt + " as ") and x.endswith("::" + fn)]:
+                b87 = Body(fx.fn(k87)); d87 = D.Dag(b87)
+                r87 = strip_casts(d87.local(0))
+                alts = r87[3] if r87[0] == "phi" and len(r87) > 3 else (r87,)
+                def from_pub(e):
+                    return C01._mentions(e, lambda x: x[0] == "call" and x[1].split("::")[-1] in ("publish_movable", "publish_leaked_id")) and \
+                           not C01._mentions(e, lambda x: x[0] == "call" and x[1].split("::")[-1] in ("available_elements_count", "len", "remaining_elements_count"))
+                ok87 = bool(alts) and all(from_pub(a) for a in alts)
+                n87 += 1
+                ctx.ob("R08.7", f"{k87}|answers-the-ring-s-publication-answer", ok87, f"{b87.f['file']}:{b87.f['line']}", f"answers `{show(r87)[:100]}`; required: the answer of queue.publish_movable(id) itself")
+    ctx.ob("R08.7", "container-publication-answers|instances", n87 >= 4, "", f"{n87} container publication answers", nontrivial=False)
     # ------------------------------------------------------------------ R08.2 ring ref<->index inverses
     for adt in (R.AM, R.FSM):
         k1, k2 = f"{adt}::slot_index_from_slot_ref", f"{adt}::slot_ref_from_slot_index"
